@@ -61,3 +61,26 @@ Fixpoint setof_keys_ok (std : bool) (t : ty) {struct t} : Prop :=
   | TTag _ t' => setof_keys_ok std t'
   | TOpt t' => setof_keys_ok std t'
   end.
+
+(* a syntactic class of member types all of whose UPER encodings have the same number of
+   bits (BOOLEAN, NULL, INTEGER with both bounds and no extension marker, SEQUENCEs of
+   such without OPTIONAL members, EXPLICIT tags): for them [key_injective] is proved
+   (CanonicalProofs.fixed_bits_key_injective) *)
+Fixpoint fixed_bits (t : ty) {struct t} : option nat :=
+  match t with
+  | TBool _ => Some 1%nat
+  | TNull _ => Some 0%nat
+  | TInt _ (ICon (Some l) (Some h) false) => Some (range_bits (h - l + 1))
+  | TSeq _ ms =>
+      (fix go (l : list ty) : option nat :=
+         match l with
+         | [] => Some 0%nat
+         | m :: r => match (if is_opt m then None else fixed_bits m), go r with
+                     | Some a, Some b => Some (a + b)%nat
+                     | _, _ => None
+                     end
+         end) ms
+  | TTag _ t' => fixed_bits t'
+  | _ => None
+  end.
+
